@@ -148,6 +148,9 @@ class StateMachine(metaclass=StateMachineMetaclass):
         # does: a callback name may be provided only by a listener.
         self._register_callbacks(list(listeners.keys()))
         self._engine = self._get_engine(rtc)
+        # A machine copied before its initial state was activated (async callbacks) still has
+        # to activate it; when the model already holds a state this is a no-op.
+        self._engine.start()
 
     def _get_initial_state(self):
         initial_state_value = (
